@@ -350,6 +350,27 @@ def action_name_args(hdr):
 
 # ---- trace validation (monitor specs are total: they never block, they record violations) -------
 
+def library_crash(out):
+    """If a driver died from a Go panic / fatal error whose crashing goroutine was executing library code (the innermost
+    frame outside the Go runtime belongs to github.com/lesismal/nbio and not to the verification shims), returns a one-line
+    description; else None.  A panic that escapes from a library goroutine kills the user's process."""
+    m = re.search(r"^(panic: .*|fatal error: .*)$", out, re.M)
+    if not m:
+        return None
+    tail = out[m.start():]
+    g = re.search(r"^goroutine \d+[^\n]*\[running\]:\n((?:.*\n)+?)(?:\n|\Z)", tail, re.M)
+    block = g.group(1) if g else tail[:4000]
+    for line in block.splitlines():
+        line = line.strip()
+        if not line or line.startswith("/") or line.startswith("panic(") or line.startswith("runtime.") or line.startswith("sync.") \
+                or line.startswith("internal/") or line.startswith("created by"):
+            continue
+        if line.startswith("github.com/lesismal/nbio") and "/zzverif/" not in line:
+            return "%s (in %s)" % (m.group(1)[:200], line.split("(")[0])
+        return None
+    return None
+
+
 CHUNK_EVENTS = 250000
 
 
